@@ -57,6 +57,9 @@ std::atomic<bool> g_late_logged{false};
 std::atomic<bool> g_w_active{false};
 pthread_cond_t* g_w_cond = nullptr;
 sem_t g_w_sem;
+std::atomic<bool> g_split{false};          // hold the controller at schedule point 6 (between reboot()'s stores)
+std::atomic<bool> g_at6{false};
+sem_t g_ctl_arrive, g_ctl_go;
 std::atomic<int> g_wakes{0};               // notifications that reached the waiting thread
 std::atomic<bool> g_free{false};           // parking disabled (free run)
 std::atomic<bool> g_free_op{false};        // the `free` operation (logs the end mark)
@@ -173,6 +176,10 @@ protected:
         return g_rc.load();
     }
     void verif_schedule_point(int p) override {
+        if (p == 6) {                       // inside reboot(), on the controller's thread, mutex held
+            if (g_split.exchange(false)) { g_at6.store(true); sem_post(&g_ctl_arrive); while (sem_wait(&g_ctl_go) != 0) {} }
+            return;
+        }
         if (foreign("P")) return;
         tl_filter = true;
         if (p == 5) {                       // after the final store: the thread ends, nothing to hold
@@ -230,6 +237,11 @@ void run_life(int fd, const std::vector<std::string>& toks) {
     sem_init(&g_arrive, 0, 0);
     sem_init(&g_go, 0, 0);
     sem_init(&g_w_sem, 0, 0);
+    sem_init(&g_ctl_arrive, 0, 0);
+    sem_init(&g_ctl_go, 0, 0);
+    std::thread* rb = nullptr;              // reboot() held between its two stores
+    bool released_into_mutex = false;       // the thread was let go towards the mutex rb holds
+    int rb_w0 = 0;
     tl_ctl = true;
     Probe* f = new Probe();                 // never destroyed: the child leaves with _exit
     size_t seen = 0;
@@ -266,7 +278,24 @@ void run_life(int fd, const std::vector<std::string>& toks) {
 
     for (const std::string& tok : toks) {
         char c = tok[0];
-        if (c == 'r' || c == 's' || c == 'b' || c == 't') {
+        if (tok == "b1") {                  // reboot() up to the point between its two stores
+            if (rb || helper) { emit(fd, "bad-schedule"); return; }
+            rb_w0 = g_wakes.load();
+            g_split.store(true);
+            g_at6.store(false);
+            rb = new std::thread([f] { tl_ctl = true; f->reboot(); sem_post(&g_ctl_arrive); });
+            while (sem_wait(&g_ctl_arrive) != 0) {}
+            if (!g_at6.load()) { rb->join(); emit(fd, "b1:nohook"); return; }
+            observe(tok, "");
+        } else if (tok == "b2") {           // second store, notification, unlock
+            if (!rb) { emit(fd, "bad-schedule"); return; }
+            sem_post(&g_ctl_go);
+            while (sem_wait(&g_ctl_arrive) != 0) {}
+            rb->join(); delete rb; rb = nullptr;
+            if (released_into_mutex) { cur = wait_arrival(); released_into_mutex = false; }
+            else after_cmd(rb_w0);
+            observe(tok, "");
+        } else if (c == 'r' || c == 's' || c == 'b' || c == 't') {
             int w0 = g_wakes.load();
             do_cmd(*f, c);
             after_cmd(w0);
@@ -294,6 +323,9 @@ void run_life(int fd, const std::vector<std::string>& toks) {
                 cur = wait_arrival();
                 if (helper) { finish_helper(); after_cmd(helper_w0); }   // completes once the mutex is free
                 else if (cur == 'w') f->verif_lock_unlock();
+            } else if (rb && (cur == '1' || cur == 'v')) {
+                // the next thing the thread does is lock the mutex reboot() holds: it moves on at b2
+                if (!released_into_mutex) { sem_post(&g_go); released_into_mutex = true; }
             } else if (cur != 'w' && cur != 'f') {
                 sem_post(&g_go);
                 cur = wait_arrival();
